@@ -69,7 +69,7 @@ kproof_vp! {
     }
 }
 
-kproof_vp! {
+kproof! {
     /// K03e: parse_deflate's compressed_size is the byte cursor after the last block's padding and the
     /// parse depends only on those bytes: two inputs that agree on the consumed prefix give the same result.
     fn k03e_consumed_prefix() {
